@@ -33,6 +33,21 @@ def _do(sess, m, a):
     return getattr(sess, m)(*args, **kw)
 
 
+def _preroll(client, server, n):
+    """`n` minimal extended operations, each answered at once (by `server` if given, else by a canned response)."""
+    for _ in range(n):
+        mid = client.extended_request("1.1")
+        data = client.data_to_send()
+        if server is not None:
+            server.receive(data)
+            server.extended_response(mid)
+            resp = server.data_to_send()
+        else:
+            resp = rfc4511.enc_msg({"t": "ExtendedResponse", "id": mid, "controls": [], "name": None, "value": None,
+                                    "result": {"code": 0, "matched_dn": "", "diag": ""}})
+        client.receive(resp)
+
+
 class C02(PropBase):
     ID = P
     RULE = ("one run = one prepared session (client with requests in progress, or server, optionally after a completed bind) + one "
@@ -83,7 +98,7 @@ class C02(PropBase):
         if rng.random() < 0.012:
             npdu = rng.choice([4, 5, 6])  # few PDUs, each about 64 KiB: a stream of more than 256 KiB in one delivery
             g = Gen(rng, big=1.0, huge=0.6, customs=customs, rich=False)
-        elif rng.random() < 0.008:
+        elif rng.random() < 0.008 and not getattr(self, "LIGHT_STREAMS", False):
             npdu = rng.choice([16, 24, 32])  # several MiB of ordinary (64 KiB-field) messages: far beyond any sensible per-MESSAGE limit
             g = Gen(rng, big=1.0, huge=0.6, customs=customs, rich=False)
             giant = True
@@ -134,6 +149,11 @@ class C02(PropBase):
             _register(helper, customs)
             _register(shadow, customs)
             reqs = []
+            if rng.random() < 0.1:
+                # a client that has been in use for a while: its ids need two (or, rarely, three) octets
+                age = rng.choice([126, 254, 255, 300]) if rng.random() < 0.97 or getattr(self, "LIGHT_STREAMS", False) else 32766
+                prep.append({"kind": "preroll", "n": age})
+                _preroll(shadow, helper, age)
             if rng.random() < 0.25 and npdu < 1000:
                 m, a = g.a_bind_any()
                 mid = _do(shadow, m, a)
@@ -185,7 +205,7 @@ class C02(PropBase):
                 "expected": [norm(x) for x in expected], "own_enc": own_enc,
                 "style": "head_rest" if giant else rng.choice(["mixed", "mixed", "byte", "header", "coalesce", "mixed", "mixed", "byte", "header", "coalesce", "head_rest"]),
                 "sweep_seed": rng.getrandbits(32),
-                "debug_logging": rng.random() < 0.3, "interlope": rng.choice([0.0, 0.0, 0.15]),
+                "debug_logging": rng.random() < 0.3, "interlope": rng.choice([0.0, 0.0, 0.15]), "misuse": rng.choice([0.0, 0.0, 0.0, 0.1]),
                 "sessions": [{"name": "S", "role": role, "register": customs, "predict": False},
                              {"name": "T", "role": role, "register": customs, "predict": False}]}
 
@@ -205,6 +225,8 @@ class C02(PropBase):
                 for se in (S, T):
                     if p["kind"] == "call":
                         _do(se.real, p["m"], p["a"])
+                    elif p["kind"] == "preroll":
+                        _preroll(se.real, None, p["n"])
                     else:
                         se.real.receive(bytes.fromhex(p["hex"]))
                     se.real.data_to_send()
@@ -329,6 +351,9 @@ class C02(PropBase):
         n = max(0, min(n, avail))
         if st.w.init.get("interlope") and rng.random() < st.w.init["interlope"]:
             return {"op": "interlope", "id": rng.choice([1, 5, 300])}
+        if st.w.init.get("misuse") and rng.random() < st.w.init["misuse"]:
+            # an application bug between two reads: receive() is called with something that is not bytes-like
+            return {"op": "misuse", "kind": rng.choice(["str", "none", "float", "object"])}
         bk, scr = policy.buf_kind(rng)
         return {"op": "deliver", "n": n, "buf": bk, "scribble": scr}
 
@@ -368,6 +393,10 @@ class C02(PropBase):
             if not okk:
                 raise Violation(P, "other-session-disturbed", "a fresh server session that received one complete ExtendedRequest while the "
                                 "subject held %d undelivered-to-application bytes %s" % (st.x["off"] - self._completed_end(st, st.x["off"]), why))
+            return
+        if op["op"] == "misuse" and not st.x["discard"]:
+            st.w.misuse_receive("S", op.get("kind"))
+            st.hit("misuse_between_chunks")
             return
         if op["op"] != "deliver":
             return
